@@ -20,9 +20,9 @@ LEVEL_NOTE = ("partial by design: the theorems are about the field codecs of mod
               "str(Decimal) / Decimal(str) of finite numbers; '%g' is not modelled (the repaired writers no longer use it). Per-signal receivers are "
               "compared (frame-level receiver lists are derived data); senders as sets (DBF: first sender)")
 
-QUICK = {"dbc": 45, "dbf": 45, "sym": 45, "kcd": 45, "json-all": 40, "xls-msbreverse": 15, "xls-msb": 15, "xls-lsb": 15,
-         "arxml3": 22, "arxml4": 22}
-THOROUGH_FACTOR = 9
+QUICK = {"dbc": 90, "dbf": 90, "sym": 90, "kcd": 90, "json-all": 80, "xls-msbreverse": 30, "xls-msb": 30, "xls-lsb": 30,
+         "arxml3": 44, "arxml4": 44}
+THOROUGH_FACTOR = 40
 
 
 def deq(a, b):
@@ -44,14 +44,15 @@ def same_value(a, b):
 def compare_features(chk, viol, cfg, rng, orig, back, mk_info):
     want_buses = {fmt_rt.bus_key_after(cfg, n): m for n, m in orig.items()}
     car = cfg.carries
+    names_count = {}        # signals by name over the whole file (all buses)
+    for odb in want_buses.values():
+        for f in odb.frames:
+            for s in f.signals:
+                names_count.setdefault(s.name, []).append(s)
     for bname, odb in want_buses.items():
         bdb = back.get(bname) if cfg.cluster else list(back.values())[0]
         if bdb is None:
             continue
-        names_count = {}
-        for f in odb.frames:
-            for s in f.signals:
-                names_count.setdefault(s.name, []).append(s)
         bframes = {}
         for f in bdb.frames:
             bframes.setdefault(fmt_rt.fkey(f), f)
@@ -64,17 +65,17 @@ def compare_features(chk, viol, cfg, rng, orig, back, mk_info):
             nontriv = False
             frame_ok = True
             if "length" in car and int(fo.size) != int(fb.size):
-                viol(cfg.key + "-length", "frame length changed", info(), int(fo.size), int(fb.size))
+                viol(cfg.kbase + "-length", "frame length changed", info(), int(fo.size), int(fb.size))
                 frame_ok = False
             if "senders" in car and sorted(set(fo.transmitters)) != sorted(set(fb.transmitters)):
-                key = cfg.key + "-senders"
+                key = cfg.kbase + "-senders"
                 lost = set(fo.transmitters) - set(fb.transmitters)
                 sig_recv = {r for s in fo.signals for r in s.receivers}
                 if cfg.fmt == "arxml" and lost and lost <= sig_recv and set(fb.transmitters) <= set(fo.transmitters):
                     key = "arxml-sender-also-receiver"
                 viol(key, "frame senders changed", info(), list(fo.transmitters), list(fb.transmitters))
             if "first_sender" in car and list(fb.transmitters) != list(fo.transmitters)[:1]:
-                viol(cfg.key + "-first-sender", "first sender not preserved", info(), list(fo.transmitters)[:1], list(fb.transmitters))
+                viol(cfg.kbase + "-first-sender", "first sender not preserved", info(), list(fo.transmitters)[:1], list(fb.transmitters))
             if len(fo.transmitters) > 1:
                 chk.count("multi-sender-frames")
             got = {}
@@ -83,24 +84,28 @@ def compare_features(chk, viol, cfg, rng, orig, back, mk_info):
             sig_ok = {}
             mux_ok = True
             if "xmux" in car and bool(fo.is_complex_multiplexed) != bool(fb.is_complex_multiplexed):
-                viol(cfg.key + "-xmux-flag", "is_complex_multiplexed changed", info(), bool(fo.is_complex_multiplexed), bool(fb.is_complex_multiplexed))
+                viol(cfg.kbase + "-xmux-flag", "is_complex_multiplexed changed", info(), bool(fo.is_complex_multiplexed), bool(fb.is_complex_multiplexed))
                 mux_ok = False
             for so in fo.signals:
                 n = fmt_rt.expected_signal_name(cfg, fo, so)
                 if n not in got:
-                    continue        # C06
+                    if "mux" in car and so.mux_val is not None:
+                        viol(cfg.kbase + "-mux-group-signal-lost", "signal of multiplex group %s is missing after the round trip" % so.mux_val,
+                             info(n), n, sorted(got))
+                        mux_ok = False
+                    continue        # otherwise C06's subject
                 sb = got[n]
                 ok = True
                 sym_mux = cfg.fmt == "sym" and so.is_multiplexer
                 if "type" in car:
                     if bool(so.is_float) != bool(sb.is_float):
-                        key = cfg.key + "-type-float"
+                        key = cfg.kbase + "-type-float"
                         if cfg.fmt == "sym" and so.is_float and so.is_signed:
                             key = "sym-float-signed"
                         viol(key, "float type changed", info(n), bool(so.is_float), bool(sb.is_float))
                         ok = False
                     elif not so.is_float and bool(so.is_signed) != bool(sb.is_signed):
-                        viol(cfg.key + "-type-signed", "signedness changed (width %d)" % so.size, info(n), bool(so.is_signed), bool(sb.is_signed))
+                        viol(cfg.kbase + "-type-signed", "signedness changed (width %d)" % so.size, info(n), bool(so.is_signed), bool(sb.is_signed))
                         ok = False
                     chk.count("type:%s" % ("float%d" % so.size if so.is_float else ("signed" if so.is_signed else "unsigned")))
                 if "scaling" in car:
@@ -113,9 +118,9 @@ def compare_features(chk, viol, cfg, rng, orig, back, mk_info):
                         if a.as_tuple().exponent > 0 or abs(a.adjusted()) > 6:
                             chk.count("scaling:exponent-form")
                         if not deq(a, b):
-                            key = cfg.key + "-scaling"
+                            key = cfg.kbase + "-scaling"
                             if nd > 6 and deq(b, D("%g" % a)):
-                                key = cfg.key.rstrip("34") + "-scaling-digits"
+                                key = cfg.fmt + "-scaling-digits"
                             viol(key, "%s is not the same decimal number" % which, info(n), str(a), str(b))
                             ok = False
                 if "values" in car and not sym_mux:
@@ -124,16 +129,16 @@ def compare_features(chk, viol, cfg, rng, orig, back, mk_info):
                     if a:
                         chk.count("value-tables")
                     if a != b:
-                        key = cfg.key + "-values"
+                        key = cfg.kbase + "-values"
                         if cfg.fmt == "sym" and any({int(x): y for x, y in o.values.items()} != a for o in names_count[so.name]):
                             key = "sym-values-enum-name-collision"
                         viol(key, "value table changed", info(n), a, b)
                         ok = False
                 if "unit" in car:
                     if so.unit != sb.unit:
-                        key = cfg.key + "-unit"
+                        key = cfg.kbase + "-unit"
                         if so.unit == "" and sb.unit is None:
-                            key = cfg.key.rstrip("34") + "-unit-empty-none"
+                            key = cfg.fmt + "-unit-empty-none"
                         viol(key, "unit changed", info(n), so.unit, sb.unit)
                         ok = False
                 if "mux" in car:
@@ -145,9 +150,9 @@ def compare_features(chk, viol, cfg, rng, orig, back, mk_info):
                     elif so.mux_val is not None:
                         chk.count("mux:selector-nonzero")
                     if a != b:
-                        key = cfg.key + ("-mux-role" if a[0] != b[0] else "-mux-selector")
+                        key = cfg.kbase + ("-mux-role" if a[0] != b[0] else "-mux-selector")
                         if b == (False, None):
-                            key = cfg.key + "-mux-lost"
+                            key = cfg.kbase + "-mux-lost"
                         viol(key, "multiplexer role / selector value changed", info(n), list(a), list(b))
                         ok = False
                         mux_ok = False
@@ -155,14 +160,14 @@ def compare_features(chk, viol, cfg, rng, orig, back, mk_info):
                         a = ([list(map(int, r)) for r in so.mux_val_grp], so.muxer_for_signal)
                         b = ([list(map(int, r)) for r in sb.mux_val_grp], sb.muxer_for_signal)
                         if a != b:
-                            viol(cfg.key + "-xmux", "extended multiplexing (selector ranges / multiplexer reference) changed", info(n), list(a), list(b))
+                            viol(cfg.kbase + "-xmux", "extended multiplexing (selector ranges / multiplexer reference) changed", info(n), list(a), list(b))
                             ok = False
                             mux_ok = False
                 if "receivers" in car:
                     a, b = list(so.receivers), list(sb.receivers)
                     chk.count("receivers:%d" % len(a))
                     if sorted(a) != sorted(b):
-                        key = cfg.key.rstrip("34") + "-receivers"
+                        key = cfg.fmt + "-receivers"
                         if cfg.fmt == "dbf" and len(a) > 1 and b == a[:1]:
                             key = "dbf-receivers-first-only"
                         elif cfg.fmt == "dbf" and a == [] and b == [""]:
@@ -186,12 +191,12 @@ def compare_features(chk, viol, cfg, rng, orig, back, mk_info):
                         chk.count("decode-original-raises")
                         continue
                     if isinstance(dbk, Exception):
-                        viol(cfg.key + "-decode-raises", "Frame.decode of the re-read frame raises", info() | {"payload": data.hex()}, "decoded", repr(dbk))
+                        viol(cfg.kbase + "-decode-raises", "Frame.decode of the re-read frame raises", info() | {"payload": data.hex()}, "decoded", repr(dbk))
                         break
                     if "mux" in car and mux_ok:
                         exp_names = sorted(sig_ok[x][1] for x in do if x in sig_ok)
                         if exp_names != sorted(x for x in dbk if x in [v[1] for v in sig_ok.values()]):
-                            viol(cfg.key + "-decode-selection", "another set of signals is decoded for this payload", info() | {"payload": data.hex()},
+                            viol(cfg.kbase + "-decode-selection", "another set of signals is decoded for this payload", info() | {"payload": data.hex()},
                                  exp_names, sorted(dbk))
                             break
                     stop = False
@@ -212,13 +217,13 @@ def compare_features(chk, viol, cfg, rng, orig, back, mk_info):
                             continue
                         chk.count("payload-values-compared")
                         if phys_ok and not same_value(pa, pb):
-                            viol(cfg.key + "-phys-value", "payload decodes to another physical value", info(name) | {"payload": data.hex()}, str(pa), str(pb))
+                            viol(cfg.kbase + "-phys-value", "payload decodes to another physical value", info(name) | {"payload": data.hex()}, str(pa), str(pb))
                             stop = True
                         if (named_ok or xls_named) and (isinstance(na, str) != isinstance(nb, str) or (isinstance(na, str) and na != nb)):
-                            viol(cfg.key + "-named-value", "payload decodes to another named value", info(name) | {"payload": data.hex()}, str(na), str(nb))
+                            viol(cfg.kbase + "-named-value", "payload decodes to another named value", info(name) | {"payload": data.hex()}, str(na), str(nb))
                             stop = True
                         elif named_ok and not isinstance(na, str) and not same_value(na, nb):
-                            viol(cfg.key + "-named-value", "payload decodes to another named value", info(name) | {"payload": data.hex()}, str(na), str(nb))
+                            viol(cfg.kbase + "-named-value", "payload decodes to another named value", info(name) | {"payload": data.hex()}, str(na), str(nb))
                             stop = True
                     if stop:
                         break
@@ -266,6 +271,26 @@ def run(chk):
             data, back = r
             compare_features(chk, viol, cfg, rng, orig, back, mk_info)
             tie_cases.append((cfg, orig, data, back))
+    for label, fmts, db in fmt_rt.directed(C):
+        for cfg in fmt_rt.CONFIGS:
+            if "C07" not in cfg.props or (fmts is not None and cfg.fmt not in fmts):
+                continue
+            buses = {"Directed": copy.deepcopy(db)} if cfg.cluster else {"": copy.deepcopy(db)}
+            orig = copy.deepcopy(buses)
+            chk.count("directed:" + label)
+
+            def mk_info(fr=None, sig=None, cfg=cfg, label=label):
+                d = {"format": cfg.key, "options": cfg.opts, "directed": label}
+                if fr is not None:
+                    d["frame"] = fmt_rt.frame_brief(fr)
+                if sig is not None:
+                    d["signal"] = sig
+                return d
+            r = round_trip(F, cfg, buses, lambda *a, **k: chk.count("round-trip-raises (C06's subject)"), mk_info)
+            if r is None or r[1] is None:
+                continue
+            compare_features(chk, viol, cfg, rng, orig, r[1], mk_info)
+            tie_cases.append((cfg, orig, r[0], r[1]))
     chk.sample({"format": "kcd", "signal": "factor 0.123456789, offset 1.00000001 -> slope/intercept text must give the same Decimals"})
     chk.sample({"format": "json-all", "frame": "multiplexer + groups 0 and 5", "re-read": "is_multiplexer / mux_val per signal, decode selects the group"})
     chk.sample({"format": "sym", "signal": "Signal(is_float=True) with default is_signed=True, 32 bit -> type word float"})
@@ -278,6 +303,108 @@ def run(chk):
     tie(chk, tie_cases)
 
 
+# ----------------------------------------------------------------------------------------------------------------------
+TYPE_FMT = {"dbc": 1, "dbf": 2, "sym": 3, "kcd": 4, "json-all": 5, "arxml4": 7, "arxml3": 9}
+NUM_RE = __import__("re").compile(r"^(-?)(\d*)(?:\.(\d*))?(?:[eE]([+-]?)(\d+))?$")
+
+
+def num_struct(text):
+    """token structure of a number text as the model's io groups: [neg] | int digits | frac digits | [-1] or [neg, digits...]"""
+    m = NUM_RE.match(text.strip())
+    if not m:
+        return None
+    e = [-1] if m.group(5) is None else [1 if m.group(4) == "-" else 0] + [int(c) for c in m.group(5)]
+    return [[1 if m.group(1) else 0], [int(c) for c in m.group(2)], [int(c) for c in (m.group(3) or "")], e]
+
+
+def dec_tuple(d):
+    t = D(d).as_tuple()
+    return [int(t.sign), int("".join(map(str, t.digits)) or "0"), int(t.exponent)]
+
+
 def tie(chk, tie_cases):
-    import c07_tie
-    c07_tie.run(chk, tie_cases)
+    """W: type words / multiplex tokens / number texts in the real output == model write;
+       R: what the real reader stored == model read of the fields in the file."""
+    lines, expect, info = [], [], []
+
+    def add(cmd, groups, exp, inf):
+        lines.append(core.fmt_case(cmd, groups))
+        expect.append(exp)
+        info.append(inf)
+    for cfg, orig, data, back in tie_cases:
+        try:
+            ex = fmt_rt.extract(cfg, data)
+        except Exception as e:  # noqa
+            chk.tie_break("extractor", {"format": cfg.key}, "extractor failed: %r" % e, None)
+            continue
+        tfmt = TYPE_FMT.get(cfg.key)
+        for bname, odb in orig.items():
+            xb = ex.get(fmt_rt.bus_key_after(cfg, bname) if cfg.cluster else "", {})
+            bdb = back.get(fmt_rt.bus_key_after(cfg, bname)) if cfg.cluster else list(back.values())[0]
+            if bdb is None:
+                continue
+            for fo in odb.frames:
+                xf = xb.get(fo.name)
+                fb = next((f for f in bdb.frames if f.name in (fo.name, "FRAME_" + fo.name)), None)
+                if xf is None or fb is None or not fmt_rt.frame_written(cfg, fo):
+                    continue
+                for so in fo.signals:
+                    sinf = {"format": cfg.key, "frame": fo.name, "signal": so.name}
+                    sb = next((s for s in fb.signals if s.name == fmt_rt.expected_signal_name(cfg, fo, so)), None)
+                    xs = xf["signals"].get(so.name)
+                    # SYM selector token of the group this signal belongs to
+                    if cfg.fmt == "sym" and so.mux_val is not None and sb is not None:
+                        msig = next((s for s in fo.signals if s.is_multiplexer), None)
+                        ml = next((m for m in xf.get("muxlines", []) if m["value"] == so.mux_val), None)
+                        if msig is not None and ml is not None:
+                            tok = ml["token"]
+                            hexa = tok.endswith("h")
+                            ds = [int(c, 16) for c in (tok[:-1] if hexa else tok)]
+                            add(705, [[int(msig.size), int(so.mux_val)]], [[int(hexa)], ds], dict(sinf, what="selector token in file"))
+                            add(706, [[int(hexa)], ds], [[int(sb.mux_val) if sb.mux_val is not None else -1]], dict(sinf, what="selector read"))
+                    if xs is None or sb is None:
+                        continue
+                    # ---- type ----
+                    if tfmt is not None and xs.get("type") is not None and "type" in cfg.carries:
+                        add(701, [[tfmt, int(so.size), int(bool(so.is_signed)), int(bool(so.is_float))]], [xs["type"]], dict(sinf, what="type fields in file"))
+                        add(702, [[tfmt], xs["type"]], [[1, int(bool(sb.is_signed)), int(bool(sb.is_float))]], dict(sinf, what="type read"))
+                    # ---- multiplex token ----
+                    if xs.get("mux") is not None and "mux" in cfg.carries:
+                        kind = 1 if cfg.fmt == "dbc" else 2
+                        tok = xs["mux"][:1] if xs["mux"][0] in (0, 1) else list(xs["mux"])
+                        mv = -1 if so.mux_val is None else int(so.mux_val)
+                        add(703, [[kind, int(bool(so.is_multiplexer)), mv]], [tok], dict(sinf, what="multiplex token in file"))
+                        add(704, [[kind], tok], [[1, int(bool(sb.is_multiplexer)), -1 if sb.mux_val is None else int(sb.mux_val)]], dict(sinf, what="multiplex read"))
+                    # ---- factor / offset texts ----
+                    if "scaling" in cfg.carries:
+                        for which in ("factor", "offset"):
+                            text = xs.get(which)
+                            if text is None:
+                                continue        # omitted by the writer (factor 1 / offset 0)
+                            st = num_struct(str(text))
+                            if st is None:
+                                chk.tie_break("number-text", dict(sinf, which=which), "not a number text: %r" % text, None)
+                                continue
+                            d = dec_tuple(getattr(so, which))
+                            add(708 if cfg.fmt in ("dbc", "sym") else 707, [d], st, dict(sinf, what=which + " text in file", text=str(text)))
+                            add(709, st, [[1] + dec_tuple(getattr(sb, which))], dict(sinf, what=which + " read", text=str(text)))
+    out = core.run_model(lines)
+    bad = 0
+    for inf, exp, o in zip(info, expect, out):
+        if core.parse_out(o) != exp:
+            bad += 1
+            chk.tie_break("fmtnum", inf, core.parse_out(o), exp)
+    chk.ties["correspondence"] = {"suite": "fmtnum W+R (cmd 701-709)", "cases": len(lines), "disagreements": bad, "files": len(tie_cases)}
+    idx = chk.rng.sample(range(len(lines)), min(300, len(lines)))
+    shard = []
+    for i in idx:
+        c, groups = lines[i].split(" ", 1)
+        shard.append((int(c, 16), core.parse_out(groups), expect[i]))
+    mm, log = core.coq_shard(shard, "c07")
+    chk.ties["vm_compute_shard"] = {"cases": len(shard), "mismatches": mm}
+    if mm is None:
+        chk.obligation_failures.append("in-Coq shard failed to evaluate")
+        chk.build_log = log[-3000:]
+    else:
+        for i in mm:
+            chk.tie_break("fmtnum-shard", shard[i][1], "vm_compute differs", shard[i][2])
